@@ -37,11 +37,28 @@ type vfBackend struct {
 	ml.Backend
 	cfg      ml.CacheConfig
 	maxNodes int
-	// taint tracking: destination rows of multi-row cache-to-cache copies in the layer-0 K tensor
+	// taint tracking, one per cache built on this backend
+	taints []*vfTaint
+}
+
+// vfTaint remembers the destination rows of multi-row cache-to-cache copies in one cache's layer-0 K tensor
+type vfTaint struct {
 	k0       []float32
 	tainted  map[int]bool
 	multiRow int
 	moves    int
+}
+
+func (b *vfBackend) taintOf(data []float32) *vfTaint {
+	if b == nil || len(data) == 0 {
+		return nil
+	}
+	for _, t := range b.taints {
+		if t.k0 != nil && &t.k0[0] == &data[0] {
+			return t
+		}
+	}
+	return nil
 }
 
 func (b *vfBackend) NewContext() ml.Context        { return &vfContext{b: b} }
@@ -215,9 +232,8 @@ func (t *vfTensor) Copy(ctx ml.Context, t2 ml.Tensor) ml.Tensor {
 		panic(fmt.Sprintf("vf: copy size mismatch %v -> %v", t.shape, dst.shape))
 	}
 	src := t.Floats()
-	b := t.b
-	// multi-row cache-to-cache move inside the layer-0 K tensor: remember destination rows
-	if b != nil && b.k0 != nil && len(t.data) > 0 && len(dst.data) > 0 && &t.data[0] == &b.k0[0] && &dst.data[0] == &b.k0[0] &&
+	// multi-row cache-to-cache move inside a layer-0 K tensor: remember destination rows
+	if b := t.b.taintOf(t.data); b != nil && len(dst.data) > 0 && &dst.data[0] == &t.data[0] &&
 		len(t.shape) == 1 && len(dst.shape) == 1 {
 		row := vfKHead * vfHeads
 		b.moves++
@@ -275,6 +291,7 @@ type vfOp struct {
 }
 
 type vfConfig struct {
+	wrap                       int   // 0 = plain Causal; 1 = WrapperCache(SWA, causal); 2 = WrapperCache(causal, SWA) (kw-* lines only)
 	variant                    int   // model variant bits (passed through to the oracle): 1 fixDefrag, 2 fixResume, 4 fixDiv
 	window                     int32 // math.MaxInt32 = none
 	maxSeq, capacity, maxBatch int
@@ -326,7 +343,9 @@ func vfHistory(cf vfConfig, ops []vfOp) string {
 
 func vfParseHistory(line string) (vfConfig, []vfOp, error) {
 	f := strings.Fields(line)
-	if len(f) > 0 && (f[0] == "kv-x" || f[0] == "kv-l") {
+	wrapped := false
+	if len(f) > 0 && (f[0] == "kv-x" || f[0] == "kv-l" || f[0] == "kw-x" || f[0] == "kw-l") {
+		wrapped = strings.HasPrefix(f[0], "kw")
 		f = f[1:]
 	}
 	p := 0
@@ -354,6 +373,9 @@ func vfParseHistory(line string) (vfConfig, []vfOp, error) {
 				err = fmt.Errorf("parse: %v", r)
 			}
 		}()
+		if wrapped {
+			cf.wrap = next()
+		}
 		cf.variant = next()
 		cf.window = int32(next())
 		cf.maxSeq, cf.capacity, cf.maxBatch, cf.cachePad, cf.batchPad = next(), next(), next(), next(), next()
@@ -573,6 +595,11 @@ func vfKeysString(ks []vfKey) string {
 // ------------------------------------------------------------------ executor
 
 type vfRun struct {
+	tag     string        // "kv-x" standalone, "kw-x" behind a WrapperCache
+	api     Cache         // what Put/Get/SetLayer are called on (the cache itself or the wrapper)
+	sel     func()        // selects this cache behind a wrapper (SetLayerType)
+	taint   *vfTaint
+	window  int32
 	cf      vfConfig
 	cache   *Causal
 	backend *vfBackend
@@ -605,7 +632,7 @@ func (r *vfRun) l2(kind, detail string) {
 		return
 	}
 	r.seenL2[kind] = true
-	r.out.L2(kind, "kv-x "+r.line, detail)
+	r.out.L2(kind, r.tag+" "+r.line, detail)
 }
 
 // rowK reads the identity of cache row loc of a layer straight from the backing tensor.
@@ -764,7 +791,7 @@ func (r *vfRun) diagnose() vfDiag {
 		}
 		use(cand, u.seq)
 		msg := fmt.Sprintf("loc %d seq %d pos %d holds row %d/%d, stored was %d/%d", u.loc, u.seq, c.pos, id, shf, cand.id, cand.shift)
-		if r.backend.tainted[u.loc] {
+		if r.taint.tainted[u.loc] {
 			d.badTainted = append(d.badTainted, msg)
 		} else {
 			d.badOther = append(d.badOther, msg)
@@ -854,17 +881,30 @@ func (r *vfRun) stateCheck(opi int, what string) {
 	}
 }
 
-func (r *vfRun) forward(opi int, op vfOp) (string, bool) {
-	c := r.cache
-	sh := r.shadow
-	ctx := r.backend.NewContext()
-	defer ctx.Close()
+func vfBatch(op vfOp) input.Batch {
 	n := len(op.toks)
 	batch := input.Batch{Positions: make([]int32, n), Sequences: make([]int, n)}
 	for i, t := range op.toks {
 		batch.Positions[i] = t.pos
 		batch.Sequences[i] = t.seq
 	}
+	return batch
+}
+
+func (r *vfRun) forward(opi int, op vfOp) (string, bool) {
+	ctx := r.backend.NewContext()
+	defer ctx.Close()
+	r.fwdPre(op, true)
+	err := r.cache.StartForward(ctx, vfBatch(op), false)
+	if err != nil {
+		return r.fwdFail(opi, len(op.toks), err, true), false
+	}
+	return r.fwdOK(opi, op, ctx), true
+}
+
+// fwdPre: shadow-side bookkeeping before a StartForward (ran = this cache's StartForward is executed)
+func (r *vfRun) fwdPre(op vfOp, ran bool) {
+	sh := r.shadow
 	if !sh.unsound {
 		// contract: positions continue the sequence (nothing at or after a batch position remains)
 		hi := map[int]int32{}
@@ -880,10 +920,9 @@ func (r *vfRun) forward(opi int, op vfOp) (string, bool) {
 			}
 		}
 	}
-	if !sh.unsound {
+	if !sh.unsound && ran {
 		sh.slide(op.toks)
-		// contract: positions continue the sequence (no entry at or after the lowest batch position
-		// of that sequence remains); a forward on an unapproved CopyPrefix target is misuse
+		// a forward on an unapproved CopyPrefix target is misuse
 		for _, t := range op.toks {
 			f := sh.fl(t.seq)
 			if f.pending {
@@ -891,10 +930,15 @@ func (r *vfRun) forward(opi int, op vfOp) (string, bool) {
 			}
 		}
 	}
-	err := c.StartForward(ctx, batch, false)
-	if err != nil {
+}
+
+// fwdFail: the batch was rejected (own = by this cache)
+func (r *vfRun) fwdFail(opi, n int, err error, own bool) string {
+	c := r.cache
+	sh := r.shadow
+	{
 		cls := vfErrClass(err)
-		if !sh.unsound {
+		if !sh.unsound && own {
 			holes := 0
 			for _, cell := range c.cells {
 				if len(cell.sequences) == 0 {
@@ -907,11 +951,18 @@ func (r *vfRun) forward(opi int, op vfOp) (string, bool) {
 				r.l2("full-error-with-room", fmt.Sprintf("op %d: batch %d, %d free cells after the error", opi, n, holes))
 			}
 		}
-		if r.out != nil {
+		if r.out != nil && own {
 			r.out.Count("fwd_err_full")
 		}
-		return cls, false
+		return cls
 	}
+}
+
+// fwdOK: the batch was accepted: Put on every layer, then observe through Get
+func (r *vfRun) fwdOK(opi int, op vfOp, ctx ml.Context) string {
+	c := r.cache
+	sh := r.shadow
+	n := len(op.toks)
 	// Put on every layer
 	kdata := make([]float32, vfKHead*vfHeads*n)
 	vdata := make([]float32, vfVHead*vfHeads*n)
@@ -925,24 +976,26 @@ func (r *vfRun) forward(opi int, op vfOp) (string, bool) {
 		}
 	}
 	for l := 0; l < vfLayers; l++ {
-		c.SetLayer(l)
+		r.sel()
+		r.api.SetLayer(l)
 		kt, _ := ctx.FromFloatSlice(kdata, vfKHead, vfHeads, n)
 		vt, _ := ctx.FromFloatSlice(vdata, vfVHead, vfHeads, n)
-		c.Put(ctx, kt, vt)
+		r.api.Put(ctx, kt, vt)
 	}
-	if r.backend.k0 == nil {
-		r.backend.k0 = c.keys[0].(*vfTensor).data
+	if r.taint.k0 == nil {
+		r.taint.k0 = c.keys[0].(*vfTensor).data
 	}
 	for i := 0; i < n; i++ {
-		delete(r.backend.tainted, c.curLoc+i)
+		delete(r.taint.tainted, c.curLoc+i)
 	}
 	if !sh.unsound {
 		sh.store(op.toks)
 	}
 
 	// observe through Get (layer 0): key view, value view, mask
-	c.SetLayer(0)
-	kv, vv, mk := c.Get(ctx)
+	r.sel()
+	r.api.SetLayer(0)
+	kv, vv, mk := r.api.Get(ctx)
 	kview, vview, mask := kv.(*vfTensor), vv.(*vfTensor), mk.(*vfTensor)
 	length := mask.Dim(0)
 	padded := mask.Dim(1)
@@ -1039,12 +1092,11 @@ func (r *vfRun) forward(opi int, op vfOp) (string, bool) {
 			}
 		}
 	}
-	return sb.String(), true
+	return sb.String()
 }
 
 func (r *vfRun) step(opi int, op vfOp) {
 	c := r.cache
-	sh := r.shadow
 	var x string
 	fwdOK := false
 	switch op.kind {
@@ -1053,67 +1105,21 @@ func (r *vfRun) step(opi int, op vfOp) {
 		x = "F:" + x
 	case 'C':
 		c.CopyPrefix(op.a, op.b, int32(op.c))
-		if !sh.unsound {
-			if op.a == op.b || op.c < 0 {
-				sh.unsound = true
-			} else {
-				sh.copyPrefix(op.a, op.b, int32(op.c))
-			}
-		}
+		r.acctCopy(op)
 		x = "C"
 	case 'R':
 		err := c.Remove(op.a, int32(op.b), int32(op.c))
-		cls := vfErrClass(err)
-		x = "R:" + cls
-		if r.out != nil {
-			r.out.Count("remove_" + cls)
-		}
-		if !sh.unsound {
-			b, e := int32(op.b), int32(op.c)
-			f := sh.fl(op.a)
-			switch {
-			case b < 0 || e < b:
-				sh.unsound = true
-			case err != nil:
-				if e == math.MaxInt32 {
-					r.l2("remove-to-end-failed", fmt.Sprintf("op %d: %v", opi, err))
-				}
-				if cls == "err:other" {
-					r.l2("remove-unexpected-error", fmt.Sprintf("op %d: %v", opi, err))
-				}
-				f.poisoned = true
-			default:
-				if bad := sh.remove(op.a, b, e); bad != "" {
-					r.l2("remove-shifted-shared-entry", fmt.Sprintf("op %d: %s", opi, bad))
-				}
-				switch {
-				case e == math.MaxInt32 && b == 0:
-					*f = vfSeqFlags{}
-				case e == math.MaxInt32:
-					q, ok := r.lastQ[op.a]
-					if sh.window != math.MaxInt32 && !(ok && q[0] == op.b && q[1] == 1 && q[2] == opi-1) {
-						f.misuse = true
-					}
-					f.pending = false
-				default:
-					if sh.window != math.MaxInt32 && e > b {
-						f.mid = true
-					}
-				}
-			}
-		}
+		x = "R:" + vfErrClass(err)
+		r.acctRemove(opi, op, err)
 	case 'Q':
 		res := c.CanResume(op.a, int32(op.b))
-		ri := 0
-		if res {
-			ri = 1
-		}
-		r.lastQ[op.a] = [3]int{op.b, ri, opi}
+		r.acctQ(opi, op, res)
 		x = fmt.Sprintf("Q:%v", res)
-		if r.out != nil {
-			r.out.Count(fmt.Sprintf("canresume_%v", res))
-		}
 	}
+	r.finish(opi, op, x, fwdOK)
+}
+
+func (r *vfRun) finish(opi int, op vfOp, x string, fwdOK bool) {
 	if op.kind != 'Q' {
 		r.stateCheck(opi, op.String())
 	}
@@ -1121,11 +1127,222 @@ func (r *vfRun) step(opi int, op vfOp) {
 	r.obsL = append(r.obsL, r.layoutString(fwdOK))
 }
 
+func (r *vfRun) acctCopy(op vfOp) {
+	sh := r.shadow
+	if !sh.unsound {
+		if op.a == op.b || op.c < 0 {
+			sh.unsound = true
+		} else {
+			sh.copyPrefix(op.a, op.b, int32(op.c))
+		}
+	}
+}
+
+// acctRemove: err is what the caller of Remove saw (behind a wrapper: the wrapper's result; on an
+// error the documented contract is that the whole sequence must be cleared, in every wrapped cache)
+func (r *vfRun) acctRemove(opi int, op vfOp, err error) {
+	sh := r.shadow
+	cls := vfErrClass(err)
+	if r.out != nil {
+		r.out.Count("remove_" + cls)
+	}
+	if sh.unsound {
+		return
+	}
+	b, e := int32(op.b), int32(op.c)
+	f := sh.fl(op.a)
+	switch {
+	case b < 0 || e < b:
+		sh.unsound = true
+	case err != nil:
+		if e == math.MaxInt32 {
+			r.l2("remove-to-end-failed", fmt.Sprintf("op %d: %v", opi, err))
+		}
+		if cls == "err:other" {
+			r.l2("remove-unexpected-error", fmt.Sprintf("op %d: %v", opi, err))
+		}
+		f.poisoned = true
+	default:
+		if bad := sh.remove(op.a, b, e); bad != "" {
+			r.l2("remove-shifted-shared-entry", fmt.Sprintf("op %d: %s", opi, bad))
+		}
+		switch {
+		case e == math.MaxInt32 && b == 0:
+			*f = vfSeqFlags{}
+		case e == math.MaxInt32:
+			q, ok := r.lastQ[op.a]
+			if sh.window != math.MaxInt32 && !(ok && q[0] == op.b && q[1] == 1 && q[2] == opi-1) {
+				f.misuse = true
+			}
+			f.pending = false
+		default:
+			if sh.window != math.MaxInt32 && e > b {
+				f.mid = true
+			}
+		}
+	}
+}
+
+func (r *vfRun) acctQ(opi int, op vfOp, res bool) {
+	ri := 0
+	if res {
+		ri = 1
+	}
+	r.lastQ[op.a] = [3]int{op.b, ri, opi}
+	if r.out != nil {
+		r.out.Count(fmt.Sprintf("canresume_%v", res))
+	}
+}
+
+// ------------------------------------------------------------------ WrapperCache runner
+
+// vfWRun drives the REAL WrapperCache over two Causal caches (sliding window + full causal, the
+// gemma-style combination) with one shadow specification per wrapped cache.
+type vfWRun struct {
+	w     *WrapperCache
+	views []*vfRun
+	obsX  []string
+	obsL  []string
+}
+
+// order 1 = [SWA, causal] (gemma2/gemma3), 2 = [causal, SWA]
+func vfNewWRun(order int, cf vfConfig, out *zzverif.Out, line string, silent bool) *vfWRun {
+	backend := &vfBackend{cfg: ml.CacheConfig{CachePadding: cf.cachePad, MaskBatchPadding: cf.batchPad, PermutedV: cf.permV}, maxNodes: cf.maxNodes}
+	if cf.maskF16 {
+		backend.cfg.MaskDType = ml.DTypeF16
+	}
+	var sf shiftFn
+	if cf.hasShift {
+		sf = vfShift
+	}
+	swa, full := NewSWACache(cf.window, sf), NewCausalCache(sf)
+	caches := []*Causal{swa, full}
+	if order == 2 {
+		caches = []*Causal{full, swa}
+	}
+	w := NewWrapperCache(caches[0], caches[1])
+	w.Init(backend, ml.DTypeF16, cf.maxSeq, cf.capacity, cf.maxBatch)
+	wr := &vfWRun{w: w}
+	for i, c := range caches {
+		idx := i
+		cfi := cf
+		cfi.window = c.windowSize
+		t := &vfTaint{tainted: map[int]bool{}}
+		backend.taints = append(backend.taints, t)
+		wr.views = append(wr.views, &vfRun{tag: "kw-x", api: w, sel: func() { w.SetLayerType(idx) }, taint: t, cf: cfi, cache: c,
+			backend: backend, line: line, out: out, seenL2: map[string]bool{}, lastQ: map[int][3]int{},
+			shadow: &vfShadow{window: c.windowSize, flags: map[int]*vfSeqFlags{}, unsound: silent}})
+	}
+	return wr
+}
+
+func (wr *vfWRun) step(opi int, op vfOp) {
+	var x string
+	details := make([]string, len(wr.views))
+	fwdOK := false
+	switch op.kind {
+	case 'F':
+		ctx := wr.views[0].backend.NewContext()
+		batch := vfBatch(op)
+		err := wr.w.StartForward(ctx, batch, false)
+		// which wrapped caches had their StartForward executed (white box: curPositions aliases the batch)
+		ran := make([]bool, len(wr.views))
+		last := -1
+		for i, v := range wr.views {
+			ran[i] = len(batch.Positions) > 0 && len(v.cache.curPositions) > 0 && &v.cache.curPositions[0] == &batch.Positions[0]
+			if ran[i] {
+				last = i
+			}
+			v.fwdPre(op, ran[i])
+		}
+		if err != nil {
+			x = "F:" + vfErrClass(err)
+			for i, v := range wr.views {
+				v.fwdFail(opi, len(op.toks), err, i == last)
+			}
+			if out := wr.views[0].out; out != nil {
+				out.Count(fmt.Sprintf("wrapper_fwd_rejected_by_cache_%d", last))
+				if last > 0 {
+					out.Count("wrapper_unwinds")
+				}
+			}
+		} else {
+			x = "F:ok"
+			fwdOK = true
+			for i, v := range wr.views {
+				details[i] = strings.TrimPrefix(v.fwdOK(opi, op, ctx), "ok")
+			}
+		}
+		ctx.Close()
+	case 'C':
+		wr.w.CopyPrefix(op.a, op.b, int32(op.c))
+		for _, v := range wr.views {
+			v.acctCopy(op)
+		}
+		x = "C"
+	case 'R':
+		err := wr.w.Remove(op.a, int32(op.b), int32(op.c))
+		x = "R:" + vfErrClass(err)
+		for _, v := range wr.views {
+			v.acctRemove(opi, op, err)
+		}
+	case 'Q':
+		res := wr.w.CanResume(op.a, int32(op.b))
+		if !wr.views[0].shadow.unsound {
+			all := true
+			for _, v := range wr.views {
+				all = all && v.cache.CanResume(op.a, int32(op.b))
+			}
+			if all != res {
+				wr.views[0].l2("wrapper-canresume-not-conjunction", fmt.Sprintf("op %d: wrapper %v, conjunction %v", opi, res, all))
+			}
+		}
+		for _, v := range wr.views {
+			v.acctQ(opi, op, res)
+		}
+		x = fmt.Sprintf("Q:%v", res)
+	}
+	var xs, ls []string
+	for i, v := range wr.views {
+		v.finish(opi, op, details[i], fwdOK)
+		xs = append(xs, v.obsX[len(v.obsX)-1])
+		ls = append(ls, v.obsL[len(v.obsL)-1])
+	}
+	wr.obsX = append(wr.obsX, x+" # "+strings.Join(xs, " # "))
+	wr.obsL = append(wr.obsL, strings.Join(ls, " # "))
+}
+
+func vfWExec(order int, cf vfConfig, ops []vfOp, out *zzverif.Out) (obsX, obsL string) {
+	wr := vfNewWRun(order, cf, out, fmt.Sprintf("%d %s", order, vfHistory(cf, ops)), false)
+	defer wr.w.Close()
+	func() {
+		defer func() {
+			if p := recover(); p != nil {
+				wr.obsX = append(wr.obsX, "panic")
+				wr.obsL = append(wr.obsL, "panic")
+				wr.views[0].l2("panic", fmt.Sprint(p))
+			}
+		}()
+		for i, op := range ops {
+			wr.step(i, op)
+		}
+	}()
+	if out != nil {
+		out.Count("cases")
+		out.Count("wrapper_histories")
+		out.Add("ops", len(ops))
+		for _, v := range wr.views {
+			out.Add("defrag_row_moves", v.taint.moves)
+			out.Add("defrag_multirow_moves", v.taint.multiRow)
+		}
+	}
+	return strings.Join(wr.obsX, " | "), strings.Join(wr.obsL, " | ")
+}
+
 // vfExec runs one history on a fresh real cache.
 func vfExec(cf vfConfig, ops []vfOp, out *zzverif.Out) (obsX, obsL string) {
 	r := vfNewRun(cf, out, vfHistory(cf, ops), false)
 	defer r.cache.Close()
-	backend := r.backend
 	func() {
 		defer func() {
 			if p := recover(); p != nil {
@@ -1142,9 +1359,9 @@ func vfExec(cf vfConfig, ops []vfOp, out *zzverif.Out) (obsX, obsL string) {
 	if out != nil {
 		out.Count("cases")
 		out.Add("ops", len(ops))
-		out.Add("defrag_row_moves", backend.moves)
-		out.Add("defrag_multirow_moves", backend.multiRow)
-		if backend.moves > 0 {
+		out.Add("defrag_row_moves", r.taint.moves)
+		out.Add("defrag_multirow_moves", r.taint.multiRow)
+		if r.taint.moves > 0 {
 			out.Count("histories_with_defrag")
 		}
 		if r.shadow.unsound {
@@ -1163,7 +1380,7 @@ type vfGen struct {
 	length map[int]int32 // runner-style bookkeeping: number of inputs recorded per sequence
 	nextID int
 	ops    []vfOp
-	run    *vfRun // the history so far, executed on a real cache (generation is outcome-aware)
+	run    func(opi int, op vfOp) string // executes the op on the generator's own real cache, returns its observation
 	dead   bool
 }
 
@@ -1202,7 +1419,7 @@ func vfGenConfig(r *zzverif.Rng) vfConfig {
 }
 
 func vfNewRun(cf vfConfig, out *zzverif.Out, line string, silent bool) *vfRun {
-	backend := &vfBackend{cfg: ml.CacheConfig{CachePadding: cf.cachePad, MaskBatchPadding: cf.batchPad, PermutedV: cf.permV}, maxNodes: cf.maxNodes, tainted: map[int]bool{}}
+	backend := &vfBackend{cfg: ml.CacheConfig{CachePadding: cf.cachePad, MaskBatchPadding: cf.batchPad, PermutedV: cf.permV}, maxNodes: cf.maxNodes, }
 	if cf.maskF16 {
 		backend.cfg.MaskDType = ml.DTypeF16
 	}
@@ -1217,7 +1434,10 @@ func vfNewRun(cf vfConfig, out *zzverif.Out, line string, silent bool) *vfRun {
 		cache = NewSWACache(cf.window, sf)
 	}
 	cache.Init(backend, ml.DTypeF16, cf.maxSeq, cf.capacity, cf.maxBatch)
-	return &vfRun{cf: cf, cache: cache, backend: backend, line: line, out: out, seenL2: map[string]bool{}, lastQ: map[int][3]int{},
+	t := &vfTaint{tainted: map[int]bool{}}
+	backend.taints = append(backend.taints, t)
+	return &vfRun{tag: "kv-x", api: cache, sel: func() {}, taint: t, cf: cf, cache: cache, backend: backend, line: line, out: out,
+		seenL2: map[string]bool{}, lastQ: map[int][3]int{},
 		shadow: &vfShadow{window: cf.window, flags: map[int]*vfSeqFlags{}, unsound: silent}}
 }
 
@@ -1232,8 +1452,7 @@ func (g *vfGen) do(op vfOp) (res string) {
 			res = "panic"
 		}
 	}()
-	g.run.step(len(g.ops)-1, op)
-	return g.run.obsX[len(g.run.obsX)-1]
+	return g.run(len(g.ops)-1, op)
 }
 
 func (g *vfGen) clear(s int) {
@@ -1361,8 +1580,12 @@ func (g *vfGen) step(wild bool) {
 
 func vfGenHistory(r *zzverif.Rng) (vfConfig, []vfOp, string) {
 	cf := vfGenConfig(r)
-	g := &vfGen{r: r, cf: cf, nseq: r.Range(1, 4), length: map[int]int32{}, run: vfNewRun(cf, nil, "", true)}
-	defer g.run.cache.Close()
+	probe := vfNewRun(cf, nil, "", true)
+	defer probe.cache.Close()
+	g := &vfGen{r: r, cf: cf, nseq: r.Range(1, 4), length: map[int]int32{}, run: func(opi int, op vfOp) string {
+		probe.step(opi, op)
+		return probe.obsX[len(probe.obsX)-1]
+	}}
 	kind := "valid"
 	wild := r.Chance(1, 8)
 	if wild {
@@ -1399,6 +1622,43 @@ func vfGenHistory(r *zzverif.Rng) (vfConfig, []vfOp, string) {
 		}
 	}
 	return cf, g.ops, kind
+}
+
+// vfGenWHistory: histories for WrapperCache(SWA, causal): sizes chosen so that one wrapped cache
+// fills up before the other (a later cache rejecting a batch the earlier one accepted => unwind)
+func vfGenWHistory(r *zzverif.Rng) (vfConfig, []vfOp) {
+	cf := vfConfig{variant: zzverif.EnvInt("VERIF_C06_VARIANT", 0), wrap: 1}
+	if r.Chance(1, 4) {
+		cf.wrap = 2
+	}
+	cf.window = zzverif.Pick(r, []int32{1, 2, 4, 4})
+	cf.maxSeq = r.Range(1, 3)
+	cf.capacity = int(cf.window) + r.Range(-1, 4)
+	if cf.capacity < 1 {
+		cf.capacity = 1
+	}
+	cf.maxBatch = r.Range(1, 4)
+	cf.cachePad = zzverif.Pick(r, []int{1, 1, 1, 2, 4})
+	cf.batchPad = zzverif.Pick(r, []int{1, 1, 8})
+	cf.hasShift = r.Chance(7, 8)
+	cf.permV = r.Chance(1, 3)
+	cf.maskF16 = r.Chance(1, 4)
+	cf.maxNodes = zzverif.Pick(r, []int{10, 40, 8192})
+	probe := vfNewWRun(cf.wrap, cf, nil, "", true)
+	defer probe.w.Close()
+	g := &vfGen{r: r, cf: cf, nseq: r.Range(1, cf.maxSeq+1), length: map[int]int32{}, run: func(opi int, op vfOp) string {
+		probe.step(opi, op)
+		return probe.obsX[len(probe.obsX)-1]
+	}}
+	nops := r.Pick3(4, 14, 30)
+	for len(g.ops) < nops && !g.dead {
+		if r.Chance(1, 3) {
+			g.fwd(false)
+		} else {
+			g.step(false)
+		}
+	}
+	return cf, g.ops
 }
 
 // ------------------------------------------------------------------ exhaustive small scope
@@ -1448,6 +1708,13 @@ func vfExhaustive(out *zzverif.Out, depth int, configs []vfConfig) {
 // ------------------------------------------------------------------ entry points
 
 func vfEmit(out *zzverif.Out, cf vfConfig, ops []vfOp) {
+	if cf.wrap != 0 {
+		line := fmt.Sprintf("%d %s", cf.wrap, vfHistory(cf, ops))
+		x, l := vfWExec(cf.wrap, cf, ops, out)
+		out.Case("kw-x "+line, x)
+		out.Case("kw-l "+line, l)
+		return
+	}
 	line := vfHistory(cf, ops)
 	x, l := vfExec(cf, ops, out)
 	out.Case("kv-x "+line, x)
@@ -1511,6 +1778,13 @@ func TestVerifC06(t *testing.T) {
 		if !cf.hasShift {
 			out.Count("cfg_no_shiftfn")
 		}
+		vfEmit(out, cf, ops)
+	}
+
+	nw := zzverif.EnvInt("VERIF_NW", n/3)
+	for i := 0; i < nw; i++ {
+		r := root.Fork()
+		cf, ops := vfGenWHistory(r)
 		vfEmit(out, cf, ops)
 	}
 
